@@ -79,6 +79,31 @@ example : -- non-trivial instance: nested loop/if, adjacent and separated ops, t
     (runF 1 (stdOrc 1) (dispatch true 3 f) 1 0).map (·.id) = [3, 5, 5] ∧
     (runF 2 (stdOrc 1) (dispatch true 3 f) 1 0).map (·.id) = [1, 2, 3, 5, 6, 5, 6] := by decide
 
+/-- An external declaration (a function without blocks) is left untouched. -/
+theorem dispatch_declaration (fixed : Bool) (nb : Nat) (f : Func) (h : f.blocks = []) :
+    dispatch fixed nb f = f := by
+  cases f with
+  | mk pre blocks =>
+    simp only at h
+    subst h
+    simp [dispatch, phaseBlocks, changedBlocks, prelude]
+
+/-- Module level: every function of the module — whatever its visibility, which the pass does not look
+at — is dispatched; position by position the functions of the output execute the filtered original. -/
+theorem C14_module (m : List Func) (nb core : Nat) (orc : Orc) (fuel entry : Nat) :
+    (dispatchModule true nb m).map (fun g => runF core orc g fuel entry) =
+      m.map (fun f => (runF core orc f fuel entry).filter (allowed nb (coreOf f core))) := by
+  simp only [dispatchModule, List.map_map]
+  apply List.map_congr_left
+  intro f _
+  exact C14_dispatch f nb core orc fuel entry
+
+example : -- a declaration followed by a function with a body: the declaration stays, the body is guarded
+    let m : List Func := [⟨[], []⟩, ⟨[], [⟨.cons (.leaf ⟨1, .copy, false⟩) .nil, .ret⟩]⟩]
+    (dispatchModule true 2 m).map (fun g => (runF 0 (fun _ _ _ => []) g 1 0).map (·.id)) = [[], []] ∧
+    (dispatchModule true 2 m).map (fun g => (runF 1 (fun _ _ _ => []) g 1 0).map (·.id)) = [[], [1]] ∧
+    (dispatchModule true 2 m).map (fun g => g.pre.length) = [0, 3] := by decide
+
 /-- with at least two cores the data-mover core and the compute core are different cores -/
 theorem dm_core_ne_compute_core (nb : Nat) (h : 2 ≤ nb) : nb - 1 ≠ 0 := by omega
 
